@@ -32,7 +32,7 @@ def info(tier):
         "canonical matrix form of the drawn data; arrays at the linprog seam compared with that form; non-trivial = "
         ">=2 variables and >=1 row; distinct = canonical (recipe, method) hashes",
         "required_cells": [f"method:{m}" for m in METHODS] + [f"ref-status:{s}" for s in ("optimal", "infeasible", "unbounded")]
-        + ["sense:min", "sense:max", "solve:1", "solve:2", "solve:3"],
+        + ["sense:min", "sense:max", "solve:1", "solve:2", "solve:3", "history:flip-sense-same-object"],
         "assumptions": [
             "HiGHS (through SciPy) is the trusted LP solver on both sides; identical input arrays give identical verdicts",
             "generator self-check (written recipe == drawn data, exact) else inconclusive",
@@ -173,6 +173,31 @@ def run_model(lp, method, rec, rng, seams, other_problem=None):
         if call.get("method") != ref_method:
             bad("seam:method-differs", solve=k, got=call.get("method"), want=ref_method)
             return
+    # the same objective object re-set with the opposite sense, solved twice: must be the LP of the flipped model
+    fsgn = -sgn
+    kwf = dict(kw, c=fsgn * c)
+    try:
+        reff = seams.orig_linprog(**kwf)
+    except Exception:
+        return
+    (P.maximize if lp["sense"] == "min" else P.minimize)(P.objective)
+    for k in (4, 5):
+        seams.reset()
+        try:
+            sol = P.solve(method=method)
+        except Exception as ex:
+            bad(f"solve-after-sense-flip-raises:{type(ex).__name__}", solve=k, error=repr(ex)[:200])
+            return
+        rec.cmp(1, "history:flip-sense-same-object")
+        want_status = REF_STATUS.get(reff.status, "failed")
+        if sol.status.value != want_status:
+            bad(f"status-differs-after-sense-flip:ref={want_status}:optyx={sol.status.value}", solve=k)
+            return
+        if reff.status == 0:
+            want_obj = fsgn * float(reff.fun) + lp["c0"]
+            if sol.objective_value is None or abs(sol.objective_value - want_obj) > 1e-7 * (1 + abs(want_obj)):
+                bad("objective-differs-after-sense-flip", solve=k, got=sol.objective_value, want=want_obj)
+                return
     rec.sample(show, cap=3)
 
 
